@@ -18,7 +18,7 @@ TECHNIQUE = "property-based testing on a deterministic actor/asyncio simulator: 
 RULE = (
     "Generated: schedules of 1-4 elements (leaf tasks or parallel elements with 1-3 tasks, optional clients cap below/above the sum, "
     "completed-by a task or 'any' with long-running partner tasks; iteration- and time-based tasks, 1-4 clients, a few throttled; "
-    "templates: two consecutive completed-by elements, and a parallel element with ramp-up whose tasks run until their finite parameter source is exhausted), "
+    "templates: two consecutive completed-by elements, and a parallel element with ramp-up whose tasks run until their finite parameter source is exhausted, and an over-committed completed-by element with 3 or 5 one-client tasks on 2 clients - in a flavour with a slow JoinPointReached so that the request to complete reaches a worker that is idle with a task of the element still queued), "
     "1-3 load-driver hosts x 1-4 cores, test mode on/off, per-worker perf_counter offsets, per-message delays from "
     "{0, 1/1024, 0.25, 0.3125, 2, 7} s (cycled list, FIFO per sender/receiver pair kept), wake-up lateness, 0-3 track preparation tasks. "
     "Non-trivial = >= 2 workers and (a completed-by broadcast was actually sent, or an over-committed element, or >= 3 elements) and at "
